@@ -163,6 +163,7 @@ type Exec struct {
 	armRet      Value
 	hasArmRet   bool
 	mergeAborts int
+	freshSlots  map[*Value]bool // slots allocated inside speculative arms
 
 	// results
 	Asserts    []AssertRec
@@ -206,6 +207,7 @@ type Exec struct {
 	SkipReach                            bool // termination-only cases: Reach points are recorded without a satisfiability query
 	ZeroDen                              int  // zero-denominator exploration budget (see fltBinop QUO)
 	zeroDenUsed                          int
+	IEEE                                 bool // zero-denominator exploration: quotients by zero are IEEE specials (special.go)
 	MergeBudget                          int
 	SkipInits                            bool
 	inInit                               bool
